@@ -128,14 +128,14 @@ def gen_planet(d: Draw, lifetime=False):
         if many and not lifetime:
             n = d.weighted([(d.between(5, 8), 20), (d.between(1, 3), 1)])
         layers.append(dict(type=t, static=d.chance(1, 2), incompressible=d.chance(1, 10), n=n, **mat))
-    spec = {'radius': d.pick([1.0e6, 6.0e6, 2.5e7]), 'layers': layers,
+    spec = {'radius': d.weighted([(1.0e6, 6), (6.0e6, 6), (2.5e7, 6), (1.0e3, 1), (7.0e7, 1)]), 'layers': layers,
             'frequency': d.pick([1.0e-6, 7.27e-5, 4.1e-5, 1.0e-3]),
             'r0_frac': d.weighted([(1.0e-3, 80), (1.0e-5, 19), (0.0, 1)])}
     return spec
 
 
 def gen_solve(d: Draw, planet_id, sol_id, spec):
-    o = {'degree_l': d.weighted([(2, 6), (3, 2), (4, 1), (5, 1)]),
+    o = {'degree_l': d.weighted([(2, 24), (3, 8), (4, 4), (5, 4), (6, 1), (8, 1), (10, 1), (20, 1)]),
          'use_kamata': d.chance(1, 2),
          'integration_method': d.pick(['RK45', 'RK23', 'DOP853', 'rk45']),
          'nondimensionalize': d.chance(2, 3),
@@ -156,7 +156,7 @@ def gen_solve(d: Draw, planet_id, sol_id, spec):
         o['solve_for'] = sf
     fault = d.weighted([('none', 8), ('solve_for_unknown', 2), ('solve_for_many', 1), ('solve_for_list', 1), ('solve_for_odd', 1), ('mangle', 3),
                         ('degree', 1), ('frequency', 1), ('steps', 4), ('ram', 1), ('tolerance', 2), ('integrator', 1),
-                        ('max_step', 1)])
+                        ('max_step', 1), ('bulk_density', 1)])
     op = {'op': 'solve', 'planet': planet_id, 'sol': sol_id, 'options': o, 'fault': fault}
     if fault == 'solve_for_unknown':
         base = list(sf or ['tidal'])
@@ -174,8 +174,10 @@ def gen_solve(d: Draw, planet_id, sol_id, spec):
         op['mangle'] = {'kind': d.pick(['short_array', 'wrong_dtype', 'noncontiguous', 'layer_type', 'tuple_len', 'upper_radius_list',
                                         'empty_interior_layer', 'empty_interior_layer', 'upper_radius_not_increasing',
                                         'first_upper_radius_zero', 'top_boundary_inside_grid', 'top_boundary_inside_grid',
-                                        'top_boundary_above_grid']),
+                                        'top_boundary_above_grid', 'aliased_density_gravity']),
                         'which': d.below(5)}
+    elif fault == 'bulk_density':
+        o['_bulk_density'] = d.pick(['zero', 'nan', 'negative', 'tiny', 'inf'])
     elif fault == 'degree':
         o['degree_l'] = d.pick([0, 1])
     elif fault == 'frequency':
